@@ -146,12 +146,12 @@ def coding_graphs(draw, kmin=1, kmax=3, fast=False, weights=None):
 
 
 @st.composite
-def masks(draw, k):
+def masks(draw, k, densities=None):
     """Vertex mask as a list of 0/1 (length 4^k)."""
     n = 4 ** k
-    if k <= 2:
+    if k <= 2 and densities is None:
         return draw(st.lists(st.integers(0, 1), min_size=n, max_size=n))
-    density = draw(st.sampled_from([0.2, 0.35, 0.5, 0.65, 0.8, 0.9, 0.97]))
+    density = draw(st.sampled_from(densities or [0.2, 0.35, 0.5, 0.65, 0.8, 0.9, 0.97]))
     rng = random.Random(draw(st.integers(0, 2 ** 32 - 1)))
     return [1 if rng.random() < density else 0 for _ in range(n)]
 
@@ -267,3 +267,108 @@ def any_strings(draw, max_len=30):
     if kind == "acgt":
         return draw(st.text(alphabet="ACGT", max_size=max_len))
     return draw(st.text(alphabet="ACGT" + FOREIGN, min_size=1, max_size=max_len))
+
+
+# ----------------------------------------------------------------------------------------------- filters
+
+GC_TEXTS = ["0", "0.25", "0.5", "0.75", "1", "0.1", "0.2", "0.3", "0.4", "0.6", "0.7", "0.8", "0.9", "0.35", "0.65"]
+
+
+@st.composite
+def gc_ranges(draw):
+    kind = draw(st.sampled_from(["none", "pair", "pair", "degenerate", "dyadic"]))
+    if kind == "none":
+        return None
+    pool = GC_TEXTS[:5] if kind == "dyadic" else GC_TEXTS
+    a, b = draw(st.sampled_from(pool)), draw(st.sampled_from(pool))
+    if kind == "degenerate":
+        return [a, a]
+    lo, hi = sorted([a, b], key=float)
+    return [lo, hi]
+
+
+@st.composite
+def local_filter_cfgs(draw, k, decidable=True):
+    """Configuration of the built-in local filter; with decidable=True only window-decidable ones."""
+    run_pool = [None] + list(range(1, k)) if decidable else [None] + list(range(1, k + 3))
+    run = draw(st.sampled_from(run_pool))
+    gc = draw(gc_ranges())
+    motif_kind = draw(st.sampled_from(["none", "none", "some"]))
+    motifs = None
+    if motif_kind == "some":
+        max_motif = k if decidable else k + 2
+        motifs = draw(st.lists(st.text(alphabet="ACGT", min_size=1, max_size=max_motif), min_size=0, max_size=3))
+        if k >= 3:
+            motifs = [m for m in motifs if len(m) >= 2] or motifs[:1]
+    return {"k": k, "run": run, "gc": gc, "motifs": motifs}
+
+
+def build_local_filter(cfg):
+    from pbt.core import import_dsw
+    dsw = import_dsw()
+    gc = None if cfg.get("gc") is None else [float(cfg["gc"][0]), float(cfg["gc"][1])]
+    return dsw.LocalBioFilter(observed_length=cfg["k"], max_homopolymer_runs=cfg.get("run"), gc_range=gc,
+                              undesired_motifs=None if cfg.get("motifs") is None else list(cfg["motifs"]))
+
+
+@st.composite
+def user_filter_cfgs(draw, k):
+    """User-defined window predicates written to the documented interface valid(self, dna_string)."""
+    kind = draw(st.sampled_from(["set", "regional_gc", "forbidden", "purine"]))
+    if kind == "set":
+        density = draw(st.sampled_from([0.15, 0.3, 0.5, 0.7, 0.9]))
+        rng = random.Random(draw(st.integers(0, 2 ** 32 - 1)))
+        members = [v for v in range(4 ** k) if rng.random() < density]
+        if not members:
+            members = [rng.randrange(4 ** k)]
+        return {"kind": "set", "k": k, "members": members}
+    if kind == "regional_gc":
+        return {"kind": "regional_gc", "k": k, "window": draw(st.integers(1, k)),
+                "bias": draw(st.sampled_from(["0", "0.1", "0.2", "0.25", "0.3", "0.5"]))}
+    if kind == "forbidden":
+        subs = draw(st.lists(st.text(alphabet="ACGT", min_size=1, max_size=k), min_size=1, max_size=3))
+        return {"kind": "forbidden", "k": k, "subs": subs}
+    return {"kind": "purine", "k": k, "max": draw(st.integers(0, k))}
+
+
+def user_predicate(cfg):
+    """Independent evaluation of a user-defined filter on a k-mer / window (the drawn rule itself)."""
+    kind = cfg["kind"]
+    if kind == "set":
+        members = set(cfg["members"])
+        return lambda s: o.index(s) in members
+    if kind == "regional_gc":
+        from fractions import Fraction
+        w, bias = cfg["window"], Fraction(cfg["bias"])
+
+        def regional(s):
+            if len(s) >= w:
+                for i in range(len(s) - w + 1):
+                    gc = s[i: i + w].count("C") + s[i: i + w].count("G")
+                    if gc > (Fraction(1, 2) + bias) * w or gc < (Fraction(1, 2) - bias) * w:
+                        return False
+                return True
+            gc = s.count("C") + s.count("G")
+            at = s.count("A") + s.count("T")
+            return not (gc > (Fraction(1, 2) + bias) * w or at > (Fraction(1, 2) + bias) * w)
+        return regional
+    if kind == "forbidden":
+        return lambda s: not any(sub in s for sub in cfg["subs"])
+    return lambda s: s.count("A") + s.count("G") <= cfg["max"]
+
+
+def build_user_filter(cfg):
+    from pbt.core import import_dsw
+    dsw = import_dsw()
+    predicate = user_predicate(cfg)
+
+    class UserFilter(dsw.DefaultBioFilter):
+        def __init__(self):
+            super().__init__(screen_name="user-defined " + cfg["kind"])
+            self.calls = 0
+
+        def valid(self, dna_string):
+            self.calls += 1
+            return bool(predicate(dna_string))
+
+    return UserFilter()
